@@ -74,9 +74,9 @@ func InitGenesis(ctx sdk.Context, keeper keeper.Keeper, data *types.GenesisState
 		keeper.Rewards.Insert(ctx, pr.Id, pr)
 	}
 
-	// set last ID based on the last pair reward
+	// the next reward ID must be greater than every imported reward ID
 	if len(data.Rewards) != 0 {
-		keeper.RewardsID.Set(ctx, data.Rewards[len(data.Rewards)-1].Id)
+		keeper.RewardsID.Set(ctx, data.Rewards[len(data.Rewards)-1].Id+1)
 	}
 	keeper.Params.Set(ctx, data.Params)
 
